@@ -1,4 +1,5 @@
 from .mesh_data import RawMeshData
+from .data_container import DataContainer, CornerDataContainer
 from .datatypes import Mesh, PointCloud, PolyLine, SurfaceMesh, VolumeMesh
 from .io.io import read_by_extension, write_by_extension
 
@@ -82,14 +83,15 @@ def save(mesh : Mesh, filename: str, ignore_elements:set = None) -> None:
         mesh.connectivity._compute_adjacent_cell()
     raw_mesh = RawMeshData(mesh) # get rid of connectivity and additional attributes depending on dimension
     if ignore_elements is not None:
-        if "edges" in ignore_elements: raw_mesh.edges.clear()
+        # raw_mesh shares its containers with mesh: ignored elements are replaced by empty containers (clearing them would empty the mesh itself)
+        if "edges" in ignore_elements: raw_mesh.edges = DataContainer(id="edges")
         if "faces" in ignore_elements:
-            raw_mesh.faces.clear()
-            raw_mesh.face_corners.clear()
+            raw_mesh.faces = DataContainer(id="faces")
+            raw_mesh.face_corners = CornerDataContainer(id="face_corners")
         if "cells" in ignore_elements: 
-            raw_mesh.cells.clear()
-            raw_mesh.cell_corners.clear()
-            raw_mesh.cell_faces.clear()
+            raw_mesh.cells = DataContainer(id="cells")
+            raw_mesh.cell_corners = CornerDataContainer(id="cell_corners")
+            raw_mesh.cell_faces = CornerDataContainer(id="cell_faces")
     write_by_extension(raw_mesh, filename)
 
 def from_arrays(
